@@ -665,8 +665,9 @@ def _fresh_expr(fn: FuncInfo, e: ast.AST | None, depth: int = 0) -> bool | None:
         if isinstance(root, ast.Name) and (root.id in params or root.id in ("self",)):
             return False
         if isinstance(root, ast.Name):
-            r = _fresh_expr(fn, root, depth + 1)
-            return False if r is False else None
+            # a field of an object that was itself created here (`prepared = Request(...).prepare(); prepared.headers`)
+            # belongs to that fresh object; a field of an alias is the caller's
+            return _fresh_expr(fn, root, depth + 1)
         return None
     if isinstance(e, ast.Name):
         if e.id in params:
